@@ -7,6 +7,7 @@ sys.path.insert(0, os.path.dirname(os.path.abspath(__file__)))
 sys.path.insert(0, os.path.join(os.path.dirname(os.path.abspath(__file__)), "..", "lib"))
 import ledger_common as L
 import ledger_mutators as M
+import reads_common as R
 import vlib
 
 PROP = "C02"
@@ -17,6 +18,9 @@ def run(c):
     L.evaluate(c, PROP, d)
     pred, mut = M.CONTROLS[PROP]
     c.set("negative_control", L.negative_control(d, c.seed, pred, mut))
+    # account volumes as of an instant are the fold too: decided by the point-in-time predicates of C03
+    # (spec/TraceReads.tla Inv_C03_MovesAt) on the reads of the shared reads pipeline
+    R.run_reads_stage(c, "C03", as_prop=PROP)
 
 
 vlib.main(run, PROP, "model_checking")
